@@ -771,6 +771,90 @@ func c20SliceInt(x *mc.X) *mc.Outcome {
 	return c20Check(fmt.Sprintf("Slice(Int).Contains(%d)", needle), []string{"Parse", "Validate"}[mode], fmt.Sprint(subj), skipped, want, "contained", flat, dest)
 }
 
+// Contains with a needle whose Go type is not the item type: membership is deep equality, and values of
+// different types are never deeply equal — int(1) is not an item of []int64{1}, 1.5 not of []int{1}, a number
+// beyond the item type's range not the item it would wrap to.
+func c20SliceNeedleTypes(x *mc.X) *mc.Outcome {
+	zh.Reset()
+	zh.Install(x, zh.PoolLIFO, zh.OrderSorted)
+	mode := x.Choose(2, "mode")
+	item := x.Choose(4, "item type") // int, int64, int32, float64
+	needles := []any{1, int64(1), int32(1), 1.0, 1.5, float32(1), int64(1<<32 + 1), uint(1), "1", true}
+	needle := needles[x.Choose(len(needles), "needle")]
+	l := x.Choose(3, "len")
+	var issues z.ZogIssueMap
+	var dest, subj any
+	want := false
+	run := func() {
+		switch item {
+		case 0:
+			v := append([]int{}, []int{1, 2}[:l]...)
+			for _, e := range v {
+				want = want || reflect.DeepEqual(any(e), needle)
+			}
+			s := z.Slice(z.Int()).Contains(needle)
+			var d []int
+			if mode == 0 {
+				issues = s.Parse(v, &d)
+			} else {
+				d = v
+				issues = s.Validate(&d)
+			}
+			dest, subj = d, v
+		case 1:
+			v := append([]int64{}, []int64{1, 2}[:l]...)
+			for _, e := range v {
+				want = want || reflect.DeepEqual(any(e), needle)
+			}
+			s := z.Slice(z.Int64()).Contains(needle)
+			var d []int64
+			if mode == 0 {
+				issues = s.Parse(v, &d)
+			} else {
+				d = v
+				issues = s.Validate(&d)
+			}
+			dest, subj = d, v
+		case 2:
+			v := append([]int32{}, []int32{1, 2}[:l]...)
+			for _, e := range v {
+				want = want || reflect.DeepEqual(any(e), needle)
+			}
+			s := z.Slice(z.Int32()).Contains(needle)
+			var d []int32
+			if mode == 0 {
+				issues = s.Parse(v, &d)
+			} else {
+				d = v
+				issues = s.Validate(&d)
+			}
+			dest, subj = d, v
+		default:
+			v := append([]float64{}, []float64{1, 2}[:l]...)
+			for _, e := range v {
+				want = want || reflect.DeepEqual(any(e), needle)
+			}
+			s := z.Slice(z.Float64()).Contains(needle)
+			var d []float64
+			if mode == 0 {
+				issues = s.Parse(v, &d)
+			} else {
+				d = v
+				issues = s.Validate(&d)
+			}
+			dest, subj = d, v
+		}
+	}
+	run()
+	var flat z.ZogIssueList
+	for k, li := range issues {
+		if k != "$first" {
+			flat = append(flat, li...)
+		}
+	}
+	return c20Check(fmt.Sprintf("Slice(%s).Contains(%T)", []string{"Int", "Int64", "Int32", "Float64"}[item], needle), []string{"Parse", "Validate"}[mode], fmt.Sprintf("%v needle %T(%v)", subj, needle, needle), mode == 1 && l == 0, want, "contained", flat, dest)
+}
+
 // Contains on element types for which deep equality and == differ (pointers, values holding
 // pointers, slices, structs): membership must be reflect.DeepEqual, element by element.
 type c20Pair struct {
@@ -1193,6 +1277,7 @@ func init() {
 			items = append(items, Item{Name: "time/far-instants", MaxDevs: -1, Run: c20TimeFar})
 			items = append(items, Item{Name: "slice/string", MaxDevs: -1, Run: c20Slice})
 			items = append(items, Item{Name: "slice/int", MaxDevs: -1, Run: c20SliceInt})
+			items = append(items, Item{Name: "slice/needle-types", MaxDevs: -1, Run: c20SliceNeedleTypes})
 			items = append(items, Item{Name: "slice/contains-deep-equality", MaxDevs: -1, Run: c20SliceDeep})
 			return items
 		},
